@@ -565,6 +565,172 @@ pub fn check_threads(case: &ThreadsCase, st: &mut Stats) -> Result<(), String> {
     verdict
 }
 
+
+// ---------------------------------------------------------------------------------------------
+// blocking scopes (`run_blocking!`) on real threads
+
+/// A `scope::run_blocking!` call on a blocking thread. Its root task (a closure, not a future) spawns the children,
+/// waits until all of them have started and then ends as scripted. Every child waits for the cancellation of the
+/// scope, lingers for a few milliseconds, marks itself done and returns Ok or Err(2). Whatever the OS schedule:
+/// when the call returns or unwinds, every child is done; a root panic is re-raised; a root error is the first error.
+#[derive(Debug, Clone, Serialize, Deserialize, Hash)]
+pub struct BlockingCase {
+    /// How the root ends: 0 Ok(7), 1 Err(1), 2 panic.
+    root: u8,
+    /// (blocking task?, background task?, milliseconds it lingers after the cancellation, 0 = returns Ok / 1 = returns Err(2))
+    children: Vec<(bool, bool, u8, u8)>,
+    /// The scripted scope is a nested `run_blocking!` inside the root task of an outer `run_blocking!`.
+    nested: bool,
+    workers: u8,
+    reps: u16,
+}
+
+pub fn gen_blocking(ch: &mut Choices) -> BlockingCase {
+    let root = ch.pick(&[2u8, 0, 1, 2, 1]);
+    let n = 1 + ch.below(5);
+    let children = (0..n)
+        .map(|_| {
+            // with a root that returns Ok only background tasks may wait for the cancellation (a main task would wait for ever)
+            let bg = root == 0 || ch.bool();
+            (ch.bool(), bg, ch.pick(&[0u8, 1, 5, 20, 40]), ch.chance(1, 3) as u8)
+        })
+        .collect();
+    BlockingCase { root, children, nested: ch.chance(1, 3), workers: ch.pick(&[2u8, 4]), reps: 4 }
+}
+
+pub fn check_blocking(case: &BlockingCase, st: &mut Stats) -> Result<(), String> {
+    use std::sync::atomic::{AtomicU32, Ordering};
+    use zksync_concurrency::{ctx, scope};
+    let rt = tokio::runtime::Builder::new_multi_thread().worker_threads(case.workers.clamp(1, 16) as usize).enable_all().build().map_err(|e| format!("INFRA: runtime: {e}"))?;
+    let n = case.children.len() as u32;
+    let mut verdict = Ok(());
+    for rep in 0..case.reps.max(1) {
+        let started = Arc::new(AtomicU32::new(0));
+        let done = Arc::new(AtomicU32::new(0));
+        let (started2, done2, case2) = (started.clone(), done.clone(), case.clone());
+        // the scripted scope; returns (result or panic, children done at the instant the call ended)
+        let scripted = move |ctx: &ctx::Ctx| -> (std::thread::Result<Result<u32, u32>>, u32) {
+            let (started, done, case) = (&started2, &done2, &case2);
+            let r = std::panic::catch_unwind(std::panic::AssertUnwindSafe(|| {
+                scope::run_blocking!(ctx, |ctx, s| {
+                    for (blocking, bg, linger, fails) in case.children.iter().copied() {
+                        let (started, done) = (started.clone(), done.clone());
+                        let ret = move || if fails == 1 { Result::<(), u32>::Err(2) } else { Ok(()) };
+                        if blocking {
+                            let f = move || {
+                                started.fetch_add(1, Ordering::SeqCst);
+                                ctx.canceled().block();
+                                std::thread::sleep(std::time::Duration::from_millis(linger as u64));
+                                done.fetch_add(1, Ordering::SeqCst);
+                                ret()
+                            };
+                            if bg {
+                                s.spawn_bg_blocking(f);
+                            } else {
+                                s.spawn_blocking(f);
+                            }
+                        } else {
+                            let f = async move {
+                                started.fetch_add(1, Ordering::SeqCst);
+                                ctx.canceled().await;
+                                tokio::time::sleep(std::time::Duration::from_millis(linger as u64)).await;
+                                done.fetch_add(1, Ordering::SeqCst);
+                                ret()
+                            };
+                            if bg {
+                                s.spawn_bg(f);
+                            } else {
+                                s.spawn(f);
+                            }
+                        }
+                    }
+                    while started.load(Ordering::SeqCst) < case.children.len() as u32 {
+                        std::thread::yield_now();
+                    }
+                    match case.root {
+                        0 => Ok(7),
+                        1 => Err(1),
+                        _ => panic!("scripted panic of the root task of a blocking scope"),
+                    }
+                })
+            }));
+            let d = done.load(Ordering::SeqCst);
+            (r, d)
+        };
+        let nested = case.nested;
+        let outcome = rt.block_on(async move {
+            tokio::task::spawn_blocking(move || {
+                let ctx = &ctx::root();
+                if !nested {
+                    return scripted(ctx);
+                }
+                // the scripted scope runs inside the root task of an outer blocking scope and its outcome is forwarded
+                let seen: std::sync::Mutex<Option<u32>> = std::sync::Mutex::new(None);
+                let outer = std::panic::catch_unwind(std::panic::AssertUnwindSafe(|| {
+                    scope::run_blocking!(ctx, |ctx, _s| {
+                        let (r, d) = scripted(ctx);
+                        *seen.lock().unwrap() = Some(d);
+                        match r {
+                            Ok(r) => r,
+                            Err(p) => std::panic::resume_unwind(p),
+                        }
+                    })
+                }));
+                let d = seen.lock().unwrap().unwrap_or(0);
+                (outer, d)
+            })
+            .await
+        });
+        let (res, done_at_return) = match outcome {
+            Ok(x) => x,
+            Err(e) => {
+                verdict = Err(format!("harness: the thread running the blocking scope failed: {e}"));
+                break;
+            }
+        };
+        // let lingering tasks finish before anything is judged or dropped
+        let t0 = std::time::Instant::now();
+        while done.load(Ordering::SeqCst) < n && t0.elapsed() < std::time::Duration::from_secs(5) {
+            std::thread::sleep(std::time::Duration::from_millis(1));
+        }
+        let reactive_errors = case.children.iter().any(|c| c.3 == 1);
+        let res_txt = match &res {
+            Ok(r) => format!("{r:?}"),
+            Err(_) => "panic".to_string(),
+        };
+        if done_at_return < n {
+            verdict = Err(format!("repetition {rep}: run_blocking! ended ({res_txt}) while only {done_at_return} of its {n} tasks had finished"));
+            break;
+        }
+        let ok = match (case.root, &res) {
+            (2, Err(_)) => true,
+            (1, Ok(Err(1))) => true,
+            (0, Ok(Ok(7))) => !reactive_errors,
+            (0, Ok(Err(2))) => reactive_errors,
+            _ => false,
+        };
+        if !ok {
+            verdict = Err(format!(
+                "repetition {rep}: run_blocking! ended with {res_txt}; the root task ends with {} after all tasks have started and the other tasks only react to the cancellation{}",
+                ["Ok(7)", "Err(1)", "a panic"][case.root.min(2) as usize],
+                if reactive_errors { " (some by returning Err(2))" } else { "" }
+            ));
+            break;
+        }
+    }
+    rt.shutdown_timeout(std::time::Duration::from_secs(5));
+    st.class(["root_returns_ok", "root_returns_err", "root_panics"][case.root.min(2) as usize]);
+    if case.nested {
+        st.class("nested_blocking_scope");
+    }
+    if case.children.iter().any(|c| c.2 >= 5) {
+        st.class("task_lingers_after_cancellation");
+        st.nontrivial(common::fingerprint(case));
+    }
+    st.sample(|| serde_json::to_value(case).unwrap());
+    verdict
+}
+
 pub fn main(env: &Env) -> i32 {
     env.arm_emergency();
     common::crashdump::arm(&env.property);
@@ -573,11 +739,15 @@ pub fn main(env: &Env) -> i32 {
         if part == "threads" {
             return env.finish_replay(&path, common::replay_case::<ThreadsCase>(case, check_threads));
         }
+        if part == "blocking_scopes" {
+            return env.finish_replay(&path, common::replay_case::<BlockingCase>(case, check_blocking));
+        }
         return env.finish_replay(&path, common::replay_case::<Case>(case, check));
     }
     let mut parts: Vec<PartReport> = vec![];
     parts.extend(common::run_regress::<Case>(env, "scopes", check));
     parts.extend(common::run_regress::<ThreadsCase>(env, "threads", check_threads));
+    parts.extend(common::run_regress::<BlockingCase>(env, "blocking_scopes", check_blocking));
     parts.push(run_proptest(
         env,
         "scopes",
@@ -600,6 +770,19 @@ pub fn main(env: &Env) -> i32 {
             PartOpts { cases: env.tier.pick(120, 3_000), max_shrink_iters: 40, samples: 2 },
             || Choices::strategy(20).prop_map(|mut ch| gen_threads(&mut ch)),
             check_threads,
+        ));
+    }
+    {
+        let mut seq = env.clone_for_part();
+        seq.shards = 4;
+        parts.push(run_proptest(
+            &seq,
+            "blocking_scopes",
+            "scope::run_blocking! on a blocking thread of a multi-thread runtime (directly, or nested inside the root task of an outer run_blocking!): the root closure spawns 1-5 tasks (blocking / async, main / background), waits until all have started and ends with Ok, Err(1) or a panic; every task waits for the cancellation of the scope, lingers 0-40 ms, marks itself done and returns Ok or Err(2); 4 repetitions per case; \
+             oracle valid under every OS schedule: at the instant the call returns or unwinds every task is done; a root panic is re-raised, a root error is returned as Err(1), and with a root Ok the result is Ok(7) unless a task reacted with Err(2). Non-trivial = a task lingers >= 5 ms after the cancellation",
+            PartOpts { cases: env.tier.pick(160, 4_000), max_shrink_iters: 40, samples: 2 },
+            || Choices::strategy(40).prop_map(|mut ch| gen_blocking(&mut ch)),
+            check_blocking,
         ));
     }
     env.finish(
